@@ -294,6 +294,22 @@ func c19Slice(c *fw.Ctx, base, inner int) {
 				if d.Offset() != off {
 					c.Violation("Decoder.SkipAlign", "align", "idempotent", fmt.Sprintf("aligned offset moved again by %d", d.Offset()-off))
 				}
+				// two children cut from one parent one after the other (two elements of a list, both still being read):
+				// each keeps its own bytes, base and read position
+				if depth == 1 && rewind == 0 {
+					pd := ofbase.NewDecoder(buf)
+					pd.Skip(base)
+					c1 := pd.SliceDecoder(40, 0)
+					c2 := pd.SliceDecoder(24+inner%8, 0)
+					c1.Skip(8)
+					c2.Skip(3)
+					c.Count("sibling_slices", 1)
+					if c1.BaseOffset() != base || c1.Length() != 32 || c1.Offset() != 8 || c1.Bytes()[0] != buf[base+8] ||
+						c2.BaseOffset() != base+40 || c2.Offset() != 3 || c2.Length() != 24+inner%8-3 || c2.Bytes()[0] != buf[base+40+3] {
+						c.Violation("SliceDecoder", "sibling", "two-children-of-one-parent", fmt.Sprintf("parent at %d: first child (40 bytes, 8 read) has base %d length %d offset %d first byte %#x (want %d/32/8/%#x); second child (%d bytes, 3 read) has base %d length %d offset %d first byte %#x (want %d/%d/3/%#x)",
+							base, c1.BaseOffset(), c1.Length(), c1.Offset(), c1.Bytes()[0], base, buf[base+8], 24+inner%8, c2.BaseOffset(), c2.Length(), c2.Offset(), c2.Bytes()[0], base+40, 24+inner%8-3, buf[base+40+3]))
+					}
+				}
 				// alignment is counted from the start of the enclosing message and does not depend on how many bytes the
 				// decoder has left: a decoder cut to an element's declared length (padding not included) still lands on
 				// the next multiple of 8, beyond its own end if need be
@@ -328,6 +344,11 @@ func c19Header(c *fw.Ctx, n int) {
 	for variant := 0; variant < 8; variant++ {
 		r := prng.Derive(c.Seed, 1919, uint64(n), uint64(variant))
 		in := r.Bytes(n)
+		if variant%2 == 1 && variant > 1 {
+			// the input is a window of a larger buffer (a frame inside a receive buffer): bytes behind it are not input
+			big := r.Bytes(n + 24)
+			in = big[:n]
+		}
 		switch variant {
 		case 0:
 			for i := range in {
